@@ -9,7 +9,34 @@ pub struct CliOut {
     pub stderr: Vec<u8>,
 }
 
+/// When set, `exe()` is the dev-profile build of the same `ska_cli` (debug assertions and arithmetic overflow
+/// checks on): a result must not depend on the build profile, and a panic there is an overflow the release build
+/// silently wraps.
+static DEBUG_PROFILE: std::sync::atomic::AtomicBool = std::sync::atomic::AtomicBool::new(false);
+
+pub fn debug_exe() -> Option<String> {
+    std::env::var("VERIF_SKA_CLI_DEBUG").ok().filter(|p| std::path::Path::new(p).exists())
+}
+
+pub fn debug_profile() -> bool {
+    DEBUG_PROFILE.load(std::sync::atomic::Ordering::Relaxed)
+}
+
+/// returns false (and changes nothing) when no dev-profile binary was built
+pub fn set_debug_profile(on: bool) -> bool {
+    if on && debug_exe().is_none() {
+        return false;
+    }
+    DEBUG_PROFILE.store(on, std::sync::atomic::Ordering::Relaxed);
+    true
+}
+
 pub fn exe() -> String {
+    if debug_profile() {
+        if let Some(p) = debug_exe() {
+            return p;
+        }
+    }
     if let Ok(p) = std::env::var("VERIF_SKA_CLI") {
         return p;
     }
